@@ -24,8 +24,9 @@ RULES = {
     'R13': 'a notifier is not looked at after its callback was called: in every loop that walks a notifier list and calls the callbacks, no field of the notifier and no link of its list element is read on the way from the call to the next iteration (the callback may have unregistered - freed - its own notifier); the trie, whose notifiers are reference counted, holds a reference instead',
     'R14': 'the removal marker goes with the entry: a trie node can outlive its entry (as an inner node, or because notifiers are registered on it), so the function that takes the entry out of a node (stores no value into it) leaves the node unmarked on every path - a node left marked as removed is taken by the next put of that key for an entry that parked iterators still hold: DELETED and FREE are announced for a key and a value that do not exist',
     'R15': 'a removed entry is gone for the dictionary operations even while an iterator still pins its node (= C18.R8): every lookup by key (get, put, rm) accepts a node only if it is not marked removed, and a removal marks or unlinks',
+    'R16': 'arguments mean what the interface says: (a) the three notify_del implementations compare the user data only when asked to (qb_map_notify_del removes whatever the user data, qb_map_notify_del_2 only the matching one): a removal is reachable under cmp_userdata == 0; (b) key lookups of the trie are exact, the prefix iterator\'s lookup of its root is by prefix; (c) skiplist_put hands the header only to the levels above the list\'s present level - the levels the search filled in are kept',
 }
-FLOORS = {'R15': 2, 'R1': 3, 'R2': 6, 'R3': 6, 'R4': 6, 'R5': 9, 'R6': 3, 'R7': 4, 'R8': 3, 'R9': 1, 'R10': 3, 'R11': 1, 'R12': 6, 'R13': 4, 'R14': 1}
+FLOORS = {'R16': 8, 'R15': 2, 'R1': 3, 'R2': 6, 'R3': 6, 'R4': 6, 'R5': 9, 'R6': 3, 'R7': 4, 'R8': 3, 'R9': 1, 'R10': 3, 'R11': 1, 'R12': 6, 'R13': 4, 'R14': 1}
 
 MAPS = {
     'hashtable': dict(file='lib/hashtable.c', create='qb_hashtable_create', rm='hashtable_rm_with_hash', put='hashtable_put',
@@ -71,6 +72,7 @@ def run(ctx):
     r11(ctx)
     r12(ctx)
     r14(ctx)
+    r16(ctx)
     # R15 = C18.R8: an entry that was removed while an iterator pins its node is gone as far as get / put / rm / count are concerned:
     # a lookup by key accepts only nodes that are not marked removed
     from rules import c18
@@ -636,3 +638,61 @@ def r14(ctx):
                       % f.name)
     if n == 0:
         raise AnalysisBroken('R14: no function of trie.c takes an entry out of a node')
+
+
+def r16(ctx):
+    prog = ctx.prog
+    # (a) notify_del
+    for name in ('hashtable_notify_del', 'skiplist_notify_del', 'trie_notify_del'):
+        f = prog.fn(name)
+        cm = [p_['n'] for p_ in f.params if 'cmp' in p_['n']]
+        if not cm:
+            raise AnalysisBroken('%s: no cmp_userdata parameter' % name)
+        cmn = cm[0]
+        dels = [ev for ev in f.calls('qb_list_del')] + [ev for ev in f.calls('free')] + [ev for ev in f.calls('trie_notify_deref')]
+        if not dels:
+            raise AnalysisBroken('%s: no removal' % name)
+        uncond = [ev for ev in dels if any(at.ls == cmn and at.op == '==' and at.rc == 0 for (at, _e) in f.guards(ev))]
+        ctx.check('R16', '%s:removes-without-comparing-when-not-asked' % name, bool(uncond), dels[0],
+                  'a notifier is removed whatever its user data when cmp_userdata is 0',
+                  'no removal is reachable under cmp_userdata == 0: qb_map_notify_del() of a notifier that was registered with user data finds nothing (-ENOENT) and the notifier keeps firing')
+    # (b) trie lookups
+    n = 0
+    seen = set()
+    for f in prog.all_fns(files={'lib/trie.c'}):
+        for ev in f.events():
+            for t in (ev.rhs if ev.kind == 'STORE' else None, ev.d.get('init') if ev.kind == 'DECL' else None, ev.e if ev.kind == 'CALL' else None):
+                if not isinstance(t, dict):
+                    continue
+                for c in walk(t):
+                    if c.get('k') == 'call' and callee_of(c) == 'trie_lookup' and len(c.get('args', [])) == 3:
+                        sig = (f.name, ev.d.get('ln'), estr(c))
+                        if sig in seen:
+                            continue
+                        seen.add(sig)
+                        n += 1
+                        by_prefix = any(m.get('k') == 'mem' and m.get('f') == 'prefix' for m in walk(c['args'][1]))
+                        exact = cval(unwrap(c['args'][2]))
+                        ctx.check('R16', 'trie:%s:lookup-%s' % (f.name, 'by-prefix' if by_prefix else 'exact'), (exact == 0) if by_prefix else (exact not in (0, None)), ev,
+                                  'the iterator\'s root is looked up by prefix' if by_prefix else 'a key is looked up exactly',
+                                  'the prefix iterator looks its prefix up as an exact key: a prefix that ends inside a compressed segment ("ab" with only "abc" stored) finds no root and the iteration yields nothing'
+                                  if by_prefix else 'a key is looked up by prefix: get / rm / notify act on another entry that merely starts with the key')
+    if n < 4:
+        raise AnalysisBroken('trie.c: %d trie_lookup calls found' % n)
+    # (c) skiplist_put
+    f = prog.fn('skiplist_put')
+    hdr = [st for st in f.events('STORE') if unwrap(st.lhs).get('k') == 'idx' and estr(unwrap(unwrap(st.lhs)['b'])) == 'update' and last_field(unwrap(st.rhs)) and last_field(unwrap(st.rhs))[1] == 'header']
+    if not hdr:
+        raise AnalysisBroken('skiplist_put: no update[level] = header store')
+    iv = estr(unwrap(unwrap(hdr[0].lhs)['i']))
+    inits = [st for st in f.events('STORE') if estr(st.lhs) == iv and st.d['op'] == '=' and f.may_follow(st, hdr[0]) and st.rhs is not None and
+             any(m.get('k') == 'mem' and m.get('f') == 'level' for m in walk(st.rhs))]
+    if not inits:
+        raise AnalysisBroken('skiplist_put: start of the header loop not found')
+    for st in inits:
+        r = unwrap(st.rhs)
+        above = r.get('k') == 'bin' and r['op'] == '+' and (cval(unwrap(r['r'])) or 0) >= 1 and last_field(unwrap(r['l'])) and last_field(unwrap(r['l']))[1] == 'level'
+        ctx.check('R16', 'skiplist_put:header-only-above-the-present-level', bool(above), st,
+                  'the header is handed to levels list->level + 1 and up',
+                  'the loop that hands the header to the new levels starts at %s: update[list->level], which the search had filled in, is overwritten with the header and the new '
+                  'node is linked in front of every node of that level - keys before it can no longer be found, removed or iterated in order' % estr(st.rhs))
